@@ -32,6 +32,8 @@ RULE = ("cases: (emit) generated universes (multi-namespace, inheritance, attrib
         "within distance 1 of a bound, ill-formed or null/occurrence edge (verdict); distinct = "
         "hash of (shape, value classes, config) resp. (facet, type, relation, position)")
 ASSUMPTIONS = [
+    "empty element content for a member with a declared default is not compared between the "
+    "validators (XSD reads it as the default value)",
     "libxml2 is the schema processor",
     "the spyne client serialises wrapped calls only (its documented limitation), so emitted "
     "requests are checked for wrapped methods; responses for every style",
@@ -213,6 +215,14 @@ def run_verdict(case, rec):
         if "special" in rel or (lr["kind"] == "count" and any(
                 c05.relation(ts, {"kind": "value", "v": v}).find("special") >= 0 for v in lr["vs"])):
             continue      # INF/NaN vs the undeclared default range: not a constraint both implement
+        if "default" in ts.get("f", {}) and (
+                (lr["kind"] == "literal" and lr["text"] == "") or
+                (lr["kind"] == "value" and c05.jv.dec(lr["v"]) in ("", b""))):
+            # XSD: an element with a declared default and empty content denotes the default
+            # value; the schema processor rightly accepts it, what soft validation makes of
+            # the empty text is a question of default handling, not of C06
+            rec.count("verdict:empty-with-default-skipped")
+            continue
         if verdicts["lxml"] != verdicts["soft"]:
             wrong = "soft" if verdicts["soft"] != ref else "lxml"
             sig_rel = "literal:empty" if rel == "literal:empty" else "%s|%s" % (k, rel)
